@@ -89,6 +89,16 @@ def peak_facts(ctx, prog):
                'scan_cmp': '<', 'update_cmp': '>', 'position': '((psf->write_current + indx) + (position / psf->sf.channels))', 'value': 'fmaxval'}
         for k, v in exp.items():
             ctx.ob('PEAK-FACTS', '%s:%s' % (name, k), ft.get(k) == v, f.loc(f.body), '%s = %s (required %s)' % (k, ft.get(k), v), None)
+        # the running maximum is kept at the precision of the samples: a maximum rounded to float compares equal to (or beats) neighbours it does not
+        # equal, and the recorded position then names a frame that does not hold the maximum (0c5fa1b)
+        grp = [f] + [g for c_ in f.calls() for g in prog.fns.get(c_.get('callee') or '', []) if g.static and g.file == f.file]
+        narrow = [(g, n) for g in grp for n in g.walk() if n.get('ck') == 'FloatingCast' and n.get('t') == 'float' and g.N[n['kids'][0]].get('t') == 'double'
+                  and g.unwrap(g.N[n['kids'][0]]).get('fv') is None and g.unwrap(g.N[n['kids'][0]]).get('v') is None]
+        elem = (f.params[1].get('t') or '') if len(f.params) > 1 else ''
+        bad = narrow if 'double' in elem else []
+        ctx.ob('PEAK-FACTS', '%s:acc-type' % name, not bad, bad[0][0].loc(bad[0][1]) if bad else f.loc(f.body),
+               'the scan of `%s` keeps its maximum at sample precision' % elem if not bad else
+               '`%s` is narrowed to float while scanning doubles: values that differ below float precision compare through the rounded maximum and the peak position can name the wrong frame' % bad[0][0].s(bad[0][0].N[bad[0][1]['kids'][0]])[:50], None)
     a, b = fu['float32_peak_update'], fu['double64_peak_update']
     same = all(a.get(k) == b.get(k) for k in ('outer_cond', 'inner_init', 'inner_cond', 'inner_inc', 'scan_cmp', 'update_cmp', 'position'))
     ctx.ob('PEAK-FACTS', 'siblings', same, 'src/float32.c', 'float32 and double64 updaters agree' if same else 'updaters DIFFER: %s vs %s' % (a, b), None)
